@@ -275,7 +275,26 @@ def factory_rules(ctx, R, PR):
                     n5 += 1
                     strq = [d for d in defs if isinstance(d, ast.Call) and call_name(d) == qh.name]
                     lstq = [d for d in defs if isinstance(d, ast.ListComp) and isinstance(d.elt, ast.Call) and call_name(d.elt) == qh.name]
-                    if strq and lstq:
+                    def branch_type(d):
+                        """the argument type set next to this definition (same block): number / tag values are passed as they are"""
+                        st_ = d
+                        while st_ is not None and not isinstance(st_, ast.stmt):
+                            st_ = getattr(st_, "_parent", None)
+                        par = getattr(st_, "_parent", None)
+                        for fld in ("body", "orelse"):
+                            lst = getattr(par, fld, None)
+                            if isinstance(lst, list) and st_ in lst:
+                                for s2 in lst:
+                                    if isinstance(s2, ast.Assign) and norm(s2.targets[0]) == norm(c.args[0]):
+                                        return const_value(prog, f, s2.value)
+                        return TOP
+                    other = [d for d in defs if d not in strq and d not in lstq and classify_value(prog, qh, esc_funcs, d)[0] != "ok"
+                             and not (isinstance(d, ast.Name) and branch_type(d) in ("number", "tag"))]
+                    if other:
+                        ctx.violation("F5a", f, "action-arg-other-rendering", "an action argument is also rendered by %s, which is not the quoting "
+                                      "helper: user text reaches the script through a form whose delimiters it can contain" % norm(other[0])[:60],
+                                      node=other[0], witness="a vacation reason with a line holding only `.` ends a text: block early; the rest is parsed as commands")
+                    elif strq and lstq:
                         ctx.holds("F5a", "%s: action arguments quoted (string and list items)" % f.qualname)
                     elif strq:
                         ctx.violation("F5a", f, "list-items-unquoted", "list-valued action arguments reach the command unquoted and unescaped", node=c,
